@@ -11,6 +11,7 @@ package checks
 // only place BoltDB's own commit protocol is put under power loss.
 
 import (
+	"errors"
 	"fmt"
 	"math/rand"
 	"os"
@@ -498,7 +499,12 @@ func replayJudge(c *evid.Ctx, idir string, or *rpOracle, replay map[string]any) 
 		w, err = drv.OpenDir(idir, drv.Cfg{SegSize: 512})
 	}()
 	if err != nil {
-		report([]string{"C01", "C03"}, "open-failed", fmt.Sprintf("Open failed: %v", err))
+		props := []string{"C01", "C03"}
+		if errors.Is(err, os.ErrExist) {
+			// creating a segment collided with a file that is already there (C13's last sentence)
+			props = append(props, "C13")
+		}
+		report(props, "open-failed", fmt.Sprintf("Open failed: %v", err))
 		return
 	}
 	defer func() {
